@@ -6,8 +6,10 @@ import (
 	"encoding/json"
 	"fmt"
 	bversion "github.com/WICG/webpackage/go/bundle/version"
+	"github.com/WICG/webpackage/go/signedexchange/version"
 	"io/ioutil"
 	"math/rand"
+	"net/http"
 	"net/url"
 	"os"
 	"runtime"
@@ -307,6 +309,36 @@ func totalRun(args []string) error {
 					c.measure(a.parser, a.note+" key "+key+" -> "+to, m, func() error { return fn(m) })
 				}
 			}
+		}
+	}
+	// (5) VALID signed exchanges (signed here, verifiable by the parser's certificate at its fixed instant) over every status
+	// and a few header sets: the verifier's later stages (acceptance policy) are reachable only past the signature check
+	for _, ver := range version.AllVersions {
+		for st := 100; st <= 599; st++ {
+			if ver != version.Version1b3 && st%7 != 0 {
+				continue
+			}
+			sp := baseSpec(r, ver)
+			sp.status, sp.date, sp.expires = st, 1600000000-10, 1600000000+3600
+			sp.resph = http.Header{"Content-Type": {"text/html"}}
+			switch st % 4 {
+			case 1:
+				sp.resph.Add("Cache-Control", "public")
+			case 2:
+				sp.resph.Add("Expires", "Thu, 01 Jan 2099 00:00:00 GMT")
+			case 3:
+				sp.resph.Add("Cache-Control", "no-cache=\"set-cookie\", max-age=\"5\"")
+			}
+			se := buildSigned(sp, kc)
+			if se.err != "" {
+				continue
+			}
+			var fb bytes.Buffer
+			if err := se.e.Write(&fb); err != nil {
+				continue
+			}
+			in := fb.Bytes()
+			c.measure("sxg.ReadExchange+Verify", fmt.Sprintf("valid %s status %d", ver, st), in, func() error { return parsers["sxg.ReadExchange+Verify"](in) })
 		}
 	}
 	nrand := 300
